@@ -2,6 +2,9 @@
    Proofs.v and followed by Print Assumptions.
 
    Vocabulary (defined in Model.v / Proofs.v):
+     val = a configuration value: VNone | VBool | VInt | VFloat (exact
+     fraction) | VStr (code points) — stored, logged and handed to the callback,
+     never computed with; None is a value, distinct from "no such gene/entry";
      world = list genome, op = (index of the genome the call is made on, gop);
      run W ops = the lineage after the calls; stored G n = _genes[n].value;
      vals G = the name->value map in dict order; ghash G = its sorted form
@@ -239,6 +242,27 @@ Theorem c20_rollback_restores :
               nth_error W3 i = Some (add_log G2 (mkM n cur v RRollback false)))).
 Proof. exact rollback_world_proof. Qed.
 Print Assumptions c20_rollback_restores.
+
+(* rollback_mutation(n) is never a silent no-op once an approved mutation of n
+   is in the log — whatever values the log records, None included (values are
+   [val]: None, booleans, integers, floats, strings; "no such entry" is not a
+   value).  With m' the LAST approved entry on n (nothing approved on n after
+   it), the rollback either restores the value that preceded it, m_orig m',
+   and logs that approved, or — when neither allow_mutations nor the callback
+   authorises that specific change — is refused and logged unapproved. *)
+Theorem c20_rollback_never_silent :
+  forall G n m cur,
+    In m (mlog G) -> m_gene m = n -> m_approved m = true -> stored G n = Some cur ->
+    exists m' l1 l2,
+      mlog G = l1 ++ m' :: l2 /\ m_gene m' = n /\ m_approved m' = true /\
+      (forall x, In x l2 -> m_gene x = n -> m_approved x = false) /\
+      (approved_by G n cur (m_orig m') RRollback = true ->
+         exists G', g_rollback G n = (G', true) /\ stored G' n = Some (m_orig m') /\
+                    mlog G' = mlog G ++ [mkM n cur (m_orig m') RRollback true]) /\
+      (approved_by G n cur (m_orig m') RRollback = false ->
+         g_rollback G n = (add_log G (mkM n cur (m_orig m') RRollback false), false)).
+Proof. exact rollback_never_silent_proof. Qed.
+Print Assumptions c20_rollback_never_silent.
 
 (* ---- the wf hypothesis is an invariant of every reachable lineage ------- *)
 
